@@ -68,7 +68,7 @@ Clause(name, ok, tag, k) == ok \/ PrintT(<<"VIOL", name, k, tag>>)
 \* ---------------------------------------------------------------- ghosts
 G0 == [tr |-> -1, brought |-> 0, taken |-> 0, banks |-> <<>>, bankIds |-> {}, lastGc |-> 0, gids |-> {}, handLive |-> FALSE,
        handIds |-> <<>>, openBank |-> <<>>, openBlind |-> <<>>, openLabels |-> <<>>, lastParts |-> {}, afterBank |-> <<>>, afterIds |-> {},
-       missed |-> <<>>, missedIds |-> {}, ext |-> FALSE, extSetup |-> FALSE, openWin |-> {}, botCalls |-> {}, leavePending |-> {}, awaitFire |-> FALSE, blindSinceFire |-> FALSE, ansIds |-> {}, prevAns |-> {}, closedBetween |-> FALSE, lastStatus |-> "none",
+       missed |-> <<>>, missedIds |-> {}, ext |-> FALSE, extSetup |-> FALSE, openWin |-> {}, botCalls |-> {}, leavePending |-> {}, awaitFire |-> FALSE, blindSinceFire |-> FALSE, ansIds |-> {}, prevAns |-> {}, earlyAns |-> {}, closedBetween |-> FALSE, lastStatus |-> "none",
        cnt |-> <<>>, cntIds |-> {}, actEvents |-> <<>>, spyCalls |-> <<>>, inGate |-> "", blindSet |-> <<>>, blindSetInGate |-> FALSE,
        leftSince |-> {}, faults |-> 0, lastUpd |-> 0, kfMidLeave |-> FALSE,
        withholdSt |-> <<>>, settledSt |-> <<>>, openSt |-> <<>>, callQ |-> <<>>, pubH |-> <<>>, nospy |-> FALSE, ownTid |-> "", engineHand |-> <<>>, engineStatus |-> "none", lastGcSeen |-> 0, enginePlayers |-> 0, autoFails |-> 0, errEvents |-> 0, afterFire |-> FALSE, fireSt |-> <<>>]
@@ -79,6 +79,8 @@ ZeroCnt == [at |-> 0, ct |-> 0, kt |-> 0, fold |-> FALSE, fr |-> ""]
 LeaversBank(pre, ids) == SeqSum([i \in 1..Len(ids) |-> IF \A j \in 1..(i - 1) : ids[j] # ids[i] THEN BankOf(pre, ids[i]) ELSE 0])
 JoinChips(joins) == SeqSum([i \in 1..Len(joins) |-> joins[i][3]])
 
+\* answers given while the producer of a collection request is parked before handing it to the updater
+QueueGates == {"game.queue:ReadyRequested", "game.queue:AnteRequested", "game.queue:BlindsRequested"}
 Upd(gg, k) ==
   LET t == Trace[k] IN
   IF t.ev = "scenario" THEN [G0 EXCEPT !.tr = t.tr, !.nospy = (t.a.kind = "manager")]
@@ -118,7 +120,8 @@ Upd(gg, k) ==
                      ELSE c
            IN [g2 EXCEPT !.cnt = [id \in g2.cntIds \cup {t.a.id} |-> IF id = t.a.id THEN c2 ELSE g2.cnt[id]],
                          !.cntIds = @ \cup {t.a.id}, !.actEvents = <<>>, !.spyCalls = <<>>,
-                         !.ansIds = IF t.res = "ok" /\ t.a.kind \in {"ready", "pay"} THEN @ \cup {<<t.a.id, t.a.kind>>} ELSE @]
+                         !.ansIds = IF t.res = "ok" /\ t.a.kind \in {"ready", "pay"} /\ g2.inGate \notin QueueGates THEN @ \cup {<<t.a.id, t.a.kind>>} ELSE @,
+                         !.earlyAns = IF t.res = "ok" /\ t.a.kind \in {"ready", "pay"} /\ g2.inGate \in QueueGates THEN @ \cup {<<t.a.id, t.a.kind>>} ELSE @]
         ELSE IF IsRet(t) THEN [g2 EXCEPT !.actEvents = <<>>, !.spyCalls = <<>>]
         ELSE IF t.ev = "cb:action" THEN [g2 EXCEPT !.actEvents = Append(@, t.a)]
         ELSE IF t.ev = "spy" THEN [g2 EXCEPT !.spyCalls = Append(@, <<t.a.kind, t.res, t.a.amt>>), !.faults = @ + (IF t.res = "fail" THEN 1 ELSE 0),
@@ -143,7 +146,7 @@ Upd(gg, k) ==
             gC == IF HasHand(st) /\ t.ev = "cb:updated"
                   THEN (IF H(st).upd # gA.lastUpd
                         THEN [gA EXCEPT !.lastUpd = H(st).upd, !.pubH = <<StripWrapper(ToHand(H(st)))>>, !.callQ = IF @ = <<>> THEN <<>> ELSE Tail(@),
-                                        !.prevAns = gA.ansIds, !.ansIds = {}]
+                                        !.prevAns = gA.earlyAns, !.ansIds = {}, !.earlyAns = {}]
                         ELSE gA)
                   ELSE gA
         IN [gC EXCEPT !.banks = Banks(st), !.bankIds = Ids(st), !.lastStatus = st.status]
